@@ -160,11 +160,11 @@ func (loader *Loader) LoadFromData(data []byte) (*T, error) {
 // LoadFromDataWithPath takes the OpenAPI document data in bytes and a path where the resolver can find referred
 // elements and returns a *T with all resolved data or an error if unable to load data or resolve refs.
 func (loader *Loader) LoadFromDataWithPath(data []byte, location *url.URL) (*T, error) {
-	loader.resetVisitedPathItemRefs()
 	if location == nil {
-		// no location: as LoadFromData
-		location = new(url.URL)
+		// no location: as LoadFromData (an empty location would still be handed to the reader)
+		return loader.LoadFromData(data)
 	}
+	loader.resetVisitedPathItemRefs()
 	return loader.loadFromDataWithPathInternal(data, location)
 }
 
